@@ -66,7 +66,7 @@ PROPS = {
         ],
     ),
     'C01': dict(
-        verus=['pmtiles_dir', 'varint_pbf', 'tile_bbox', 'tile_index', 'block_index'],
+        verus=['pmtiles_dir', 'pmtiles_dir_dec', 'varint_pbf', 'tile_bbox', 'tile_index', 'block_index'],
         kani=['pmtiles_codec', 'versatiles_codec', 'tile_bbox', 'tile_bbox_iter'],
         not_decided=[
             'end-to-end write-then-read through async I/O (writer bodies, de-duplication closure, PMTiles write loop)',
@@ -86,7 +86,7 @@ PROPS = {
         ],
     ),
     'C16': dict(
-        verus=['pmtiles_dir', 'varint_pbf', 'pmtiles_reader', 'versatiles_reader', 'tile_index', 'block_index'],
+        verus=['pmtiles_dir', 'pmtiles_dir_dec', 'varint_pbf', 'pmtiles_reader', 'versatiles_reader', 'tile_index', 'block_index'],
         kani=['pmtiles_codec', 'versatiles_codec'],
         not_decided=[
             'MBTiles zoom gaps (SQL), ./-prefixed tar members (string code)',
@@ -94,11 +94,11 @@ PROPS = {
         ],
     ),
     'C19': dict(
-        verus=['varint_pbf', 'pmtiles_dir', 'filters', 'converter', 'vector_tile_tables', 'pmtiles_reader', 'vector_tile_feature', 'convert_cli', 'versatiles_reader', 'tile_index', 'vector_tile_layer', 'block_index'],
+        verus=['varint_pbf', 'pmtiles_dir', 'filters', 'converter', 'vector_tile_tables', 'pmtiles_reader', 'vector_tile_feature', 'convert_cli', 'versatiles_reader', 'tile_index', 'vector_tile_layer', 'block_index', 'pmtiles_dir_dec'],
         kani=['pmtiles_codec', 'versatiles_codec', 'geo'],
         not_decided=[
             'JSON / TileJSON / CSV / VPL text parsers (String, nom, core::fmt: outside both verifiers; Kani probes timed out)',
-            'GeoValue decoding, VectorTile::from_blob (top-level loop; same shape as the verified layer loop)', 'MBTiles / tar / directory opening', 'stack depth of the recursive JSON parser',
+            'GeoValue decoding', 'MBTiles / tar / directory opening', 'stack depth of the recursive JSON parser',
         ],
     ),
     'C20': dict(
